@@ -2,6 +2,11 @@
 //!
 //! Everything here exposes state or pauses execution; nothing here computes a verdict.
 
+use crate::tree_store::{
+    BuddyAllocator, InMemoryBackend, Page, PageNumber, PageTracker, TransactionalMemory,
+};
+use crate::{Database, DatabaseError, Result};
+use std::collections::BTreeMap;
 use std::sync::{Arc, RwLock};
 
 // ---- pause points --------------------------------------------------------------------------------
@@ -22,3 +27,163 @@ pub(crate) fn pause(name: &'static str) {
     }
 }
 
+// ---- snapshots -----------------------------------------------------------------------------------
+
+/// (page number as stored, checksum, length)
+pub type Root = Option<(u64, u128, u64)>;
+
+#[derive(Clone, Debug)]
+pub struct MemSnapshot {
+    pub page_size: u32,
+    pub region_header_pages: u32,
+    pub region_max_pages: u32,
+    pub num_regions: u32,
+    pub layout_len: u64,
+    pub allocators_loaded: bool,
+    /// `BuddyAllocator::to_vec()` of every region
+    pub regions: Vec<Vec<u8>>,
+    pub region_tracker: Vec<u8>,
+    pub current_data_root: Root,
+    pub current_system_root: Root,
+    pub current_transaction_id: u64,
+    pub durable_data_root: Root,
+    pub durable_system_root: Root,
+    pub durable_transaction_id: u64,
+    pub read_from_secondary: bool,
+    pub needs_repair: bool,
+    pub unpersisted_pages: Vec<u64>,
+    pub unpersisted_allocations: BTreeMap<u64, Vec<u64>>,
+    pub unpersisted_data_freed: BTreeMap<u64, Vec<u64>>,
+    pub post_commit_allocations: Vec<u64>,
+}
+
+#[derive(Clone, Debug)]
+pub struct TrackerSnapshot {
+    pub next_savepoint_id: u64,
+    pub next_transaction_id: u64,
+    pub live_write_transaction: Option<u64>,
+    pub live_read_transactions: BTreeMap<u64, u64>,
+    pub valid_savepoints: BTreeMap<u64, u64>,
+    pub persistent_savepoints: Vec<u64>,
+    pub pending_non_durable_commits: BTreeMap<u64, u64>,
+    pub unprocessed_freed_non_durable_commits: Vec<u64>,
+    pub deferred_close: bool,
+}
+
+#[derive(Clone, Debug)]
+pub struct Snapshot {
+    pub mem: MemSnapshot,
+    pub tracker: TrackerSnapshot,
+}
+
+impl Database {
+    /// Verification hook: read-only copy of the allocator, header, unpersisted and tracker state
+    pub fn verif_snapshot(&self) -> Snapshot {
+        let (mem, tracker) = self.verif_parts();
+        Snapshot {
+            mem: mem.verif_snapshot(),
+            tracker: tracker.verif_snapshot(),
+        }
+    }
+
+    /// Verification hook: bytes of one page as a write transaction would see it (write buffer,
+    /// then cache, then file)
+    pub fn verif_read_page(&self, page_number: u64) -> Result<Vec<u8>> {
+        self.verif_parts().0.verif_read_page(page_number)
+    }
+}
+
+// ---- allocator handles ---------------------------------------------------------------------------
+
+/// Thin public wrapper around the crate-private buddy allocator
+pub struct BuddyHandle {
+    inner: BuddyAllocator,
+}
+
+impl BuddyHandle {
+    pub fn new(num_pages: u32, max_page_capacity: u32) -> Self {
+        Self {
+            inner: BuddyAllocator::new(num_pages, max_page_capacity),
+        }
+    }
+    pub fn from_bytes(data: &[u8]) -> Self {
+        Self {
+            inner: BuddyAllocator::from_bytes(data),
+        }
+    }
+    pub fn to_vec(&self) -> Vec<u8> {
+        self.inner.to_vec()
+    }
+    pub fn alloc(&mut self, order: u8) -> Option<u32> {
+        self.inner.alloc(order)
+    }
+    pub fn alloc_lowest(&mut self, order: u8) -> Option<u32> {
+        self.inner.alloc_lowest(order)
+    }
+    pub fn free(&mut self, page: u32, order: u8) -> u8 {
+        self.inner.free(page, order)
+    }
+    pub fn record_alloc(&mut self, page: u32, order: u8) -> bool {
+        self.inner.record_alloc(page, order)
+    }
+    pub fn resize(&mut self, new_size: u32) {
+        self.inner.resize(new_size);
+    }
+    pub fn len(&self) -> u32 {
+        self.inner.len()
+    }
+    pub fn is_empty(&self) -> bool {
+        self.inner.len() == 0
+    }
+    pub fn max_order(&self) -> u8 {
+        self.inner.get_max_order()
+    }
+    pub fn count_allocated_pages(&self) -> u32 {
+        self.inner.count_allocated_pages()
+    }
+    pub fn count_free_pages(&self) -> u32 {
+        self.inner.count_free_pages()
+    }
+    pub fn trailing_free_pages(&self) -> u32 {
+        self.inner.trailing_free_pages()
+    }
+    pub fn highest_free_order(&self) -> Option<u8> {
+        self.inner.highest_free_order()
+    }
+}
+
+/// Thin public wrapper around the region-level allocator of a fresh in-memory database
+pub struct MemHandle {
+    mem: TransactionalMemory,
+}
+
+impl MemHandle {
+    pub fn new(page_size: usize, region_size: u64) -> Result<Self, DatabaseError> {
+        let mem = TransactionalMemory::new(
+            Box::new(InMemoryBackend::new()),
+            true,
+            page_size,
+            Some(region_size),
+            0,
+            false,
+        )?;
+        mem.reset_allocator_state()?;
+        Ok(Self { mem })
+    }
+
+    /// Allocates `bytes` and returns (region, page index, order)
+    pub fn allocate(&self, bytes: usize, lowest: bool) -> Result<(u32, u32, u8)> {
+        let page = self.mem.allocate_helper(bytes, lowest)?;
+        let n = page.get_page_number();
+        Ok((n.region, n.page_index, n.page_order))
+    }
+
+    pub fn free(&self, region: u32, page_index: u32, order: u8) {
+        self.mem
+            .free(PageNumber::new(region, page_index, order), &PageTracker::ignore());
+    }
+
+    pub fn snapshot(&self) -> MemSnapshot {
+        self.mem.verif_snapshot()
+    }
+}
